@@ -59,6 +59,9 @@ type kWorld struct {
 	parts []string
 	// unwraps[factory#gen][sk created] = times of KMS.DecryptKey
 	payloads [][]byte
+	// cacheOps[factory idx][partition] = kinds of the operations served by the long-lived IK cache
+	// of that partition since it was created (reset by restart / close); used to classify findings
+	cacheOps [2]map[string][]string
 }
 
 type kLogger struct{ w *kWorld }
@@ -80,6 +83,7 @@ func newKWorld(spec1 PolicySpec) *kWorld {
 	for _, f := range w.F {
 		w.start(f)
 	}
+	w.cacheOps = [2]map[string][]string{{}, {}}
 	aelog.SetLogger(kLogger{w})
 	return w
 }
@@ -115,6 +119,7 @@ type kStep struct {
 	T       int64
 	msFrom, kmsFrom, aeadFrom, secFrom, logFrom int
 	rowsBefore map[string]bool
+	CacheOpsBefore []string
 }
 
 func (w *kWorld) session(f *kFactory, long bool, part string) (*ae.Session, func()) {
@@ -177,6 +182,10 @@ func (w *kWorld) apply(op string) *kStep {
 		if st.Rec != nil {
 			w.recs[st.Part] = append(w.recs[st.Part], st.Rec)
 		}
+		st.CacheOpsBefore = append([]string(nil), w.cacheOps[kf.idx][st.Part]...)
+		if st.LongLived || kf.spec.SharedIK {
+			w.cacheOps[kf.idx][st.Part] = append(w.cacheOps[kf.idx][st.Part], "enc")
+		}
 	case "dec": // dec:F:L|N:part:old|new
 		kf := w.F[atoi(f[1])-1]
 		st.F, st.LongLived, st.Part = kf, f[2] == "L", f[3]
@@ -196,6 +205,9 @@ func (w *kWorld) apply(op string) *kStep {
 		})
 		if st.Panic == "" && !drrEqual(arg, rec.DRR) {
 			st.Err = fmt.Errorf("C01: decrypt modified the caller's record")
+		}
+		if st.LongLived || kf.spec.SharedIK {
+			w.cacheOps[kf.idx][st.Part] = append(w.cacheOps[kf.idx][st.Part], "dec")
 		}
 	case "tick":
 		vclock.Advance(time.Duration(atoi(f[1])) * time.Second)
@@ -219,6 +231,7 @@ func (w *kWorld) apply(op string) *kStep {
 			kf.f.Close()
 		})
 		vsched.Quiesce()
+		w.cacheOps[kf.idx] = map[string][]string{}
 		st.secFrom = -1 // marker: accounting of the closed generation happens in the oracle
 		old := kf.tf
 		w.start(kf)
@@ -228,6 +241,9 @@ func (w *kWorld) apply(op string) *kStep {
 		st.F, st.Part = kf, f[2]
 		st.Panic = safe(func() { kf.sess[f[2]].Close() })
 		delete(kf.sess, f[2])
+		if !kf.spec.SharedIK {
+			delete(w.cacheOps[kf.idx], f[2])
+		}
 	default:
 		panic("bad op " + op)
 	}
